@@ -841,9 +841,10 @@ class Model():
                     [model.get_asset_by_id(int(id)) for id in targets]
                 )
 
-            #TODO Properly handle extras
-
             model.add_association(association)
+
+            if 'extras' in assoc_entry:
+                association.extras = assoc_entry['extras']
 
         # Reconstruct the attackers
         if 'attackers' in serialized_object:
